@@ -136,7 +136,9 @@ type VC struct {
 	failed    error
 	carved    bool // known-finding carve-outs are assumed as extra preconditions
 	ghostLocals map[string]*SType
+	callPre     *State // state before the call being processed (before(e) in anchored ghost code)
 	usedAnchors map[*Clause]bool
+	refPaths    map[string][]string // components of struct values: selector terms of their reference-typed fields
 	refComps    map[string]int // components holding references: 1 = (Array Int Ref), 2 = (Array Int (Array Int Ref))
 	curArgs     map[string]binding // arg0, arg1, ... of the call being processed (for anchored ghost code)
 	opq         map[*Decl]*opaqueInfo
@@ -201,6 +203,13 @@ func (vc *VC) assume(t Term) {
 	if t == "true" {
 		return
 	}
+	// one fact per conjunct: premise selection can then pick the relevant ones
+	if cs := conjuncts(t); len(cs) > 1 {
+		for _, c := range cs {
+			vc.assume(c)
+		}
+		return
+	}
 	b := -1
 	if vc.curBlock != nil && vc.curReach != "true" {
 		b = vc.curBlock.Index
@@ -210,6 +219,12 @@ func (vc *VC) assume(t Term) {
 
 func (vc *VC) assumeGlobal(t Term) {
 	if t == "true" {
+		return
+	}
+	if cs := conjuncts(t); len(cs) > 1 {
+		for _, c := range cs {
+			vc.assumeGlobal(c)
+		}
 		return
 	}
 	vc.facts = append(vc.facts, fact{fmt.Sprintf("(assert %s)", t), -1})
@@ -326,6 +341,15 @@ func (vc *VC) assumeRefsValid(name string, comp Term, next Term, global bool) {
 	case 2:
 		f = fmt.Sprintf("(forall ((r Int) (k Int)) (! (< (select (select %s r) k) %s) :pattern ((select (select %s r) k))))", comp, next, comp)
 	default:
+		if paths := vc.refPaths[name]; len(paths) > 0 {
+			// references held in struct values stored in slices / arrays
+			var cs []Term
+			for _, p := range paths {
+				cs = append(cs, app("<", strings.ReplaceAll(p, "@@X@@", fmt.Sprintf("(select (select %s r) k)", comp)), next))
+			}
+			f = fmt.Sprintf("(forall ((r Int) (k Int)) (! %s :pattern ((select (select %s r) k))))", and(cs...), comp)
+			break
+		}
 		return
 	}
 	if name == compNext {
@@ -417,7 +441,42 @@ func (vc *VC) boxComp(t types.Type) (string, string) {
 func (vc *VC) elemsComp(t types.Type) (string, string) {
 	n := "H.elems." + typeKey(t)
 	vc.noteRef(n, t, true)
+	if _, isStruct := t.Underlying().(*types.Struct); isStruct && !isExternalStruct(t) {
+		if vc.refPaths == nil {
+			vc.refPaths = map[string][]string{}
+		}
+		if _, done := vc.refPaths[n]; !done {
+			vc.refPaths[n] = vc.structRefPaths(t, "@@X@@", 0)
+		}
+	}
 	return n, "(Array Int (Array Int " + vc.reg.sortOf(t) + "))"
+}
+
+// structRefPaths: terms (over the placeholder X) selecting every reference-typed field of a struct value.
+func (vc *VC) structRefPaths(t types.Type, x string, depth int) []string {
+	var out []string
+	st, ok := t.Underlying().(*types.Struct)
+	if !ok || depth > 3 {
+		return nil
+	}
+	vc.reg.sortOf(t)
+	k := typeKey(t)
+	for i := 0; i < st.NumFields(); i++ {
+		f := st.Field(i)
+		sel := app(structSel(k, f.Name()), x)
+		switch {
+		case isRefType(f.Type()):
+			out = append(out, sel)
+		default:
+			if _, ok := f.Type().Underlying().(*types.Struct); ok && !isExternalStruct(f.Type()) {
+				out = append(out, vc.structRefPaths(f.Type(), sel, depth+1)...)
+			}
+			if _, ok := f.Type().Underlying().(*types.Slice); ok {
+				out = append(out, app("ys.arr", sel))
+			}
+		}
+	}
+	return out
 }
 
 func (vc *VC) mapComps(m *types.Map) (dom, val, dsort, vsort string) {
